@@ -130,6 +130,8 @@ def flags_block(mo):
         out.append("marker-value")
     if f.deadline_tie:
         out.append("deadline-tie")
+    if f.ambiguous_calls:
+        out.append("ambiguous-call-index")
     return out
 
 
@@ -151,3 +153,83 @@ def attach_replay(findings, scn, seed, res=None, extra=None):
             for k, v in extra.items():
                 f.setdefault(k, v)
     return findings
+
+
+# ------------------------------------------------------------------------------------------
+# multi-execution scenarios for the monitor-style properties
+# ------------------------------------------------------------------------------------------
+def rename_functions(prog, prefix):
+    txt = json.dumps({"definition": prog["definition"], "script": prog["script"]})
+    txt = txt.replace(":function:fn_", ":function:%sfn_" % prefix).replace('"fn_', '"%sfn_' % prefix)
+    d = json.loads(txt)
+    return {"definition": d["definition"], "script": d["script"], "input": prog["input"],
+            "functions": [prefix + f for f in prog["functions"]]}
+
+
+def fanout_depth(machine):
+    """Static nesting depth of Map/Parallel states in a (sub) machine."""
+    best = 0
+    for st in (machine.get("States") or {}).values():
+        subs = list(st.get("Branches") or [])
+        for k in ("ItemProcessor", "Iterator"):
+            if isinstance(st.get(k), dict):
+                subs.append(st[k])
+        if subs:
+            best = max(best, 1 + max(fanout_depth(m) for m in subs))
+    return best
+
+
+def classify(mo, allow_single_failure=True, allow_handled=False, allow_multi=False, definition=None):
+    """Why a generated execution is outside the region a general monitor run may judge (None = inside)."""
+    if mo.unsupported:
+        return "unsupported"
+    b = flags_block(mo)
+    if b:
+        return b[0]
+    f = mo.flags
+    if f.fanout_failures:
+        if f.max_fail_depth > 1 or (definition is not None and fanout_depth(definition) > 1):
+            return "nested-fanout-failure"
+        if f.fanout_failures > 1 and not allow_multi:
+            return "multiple-branch-failures"
+        if f.fanout_handled and not allow_handled:
+            return "handled-fanout-failure"
+        if not allow_single_failure:
+            return "fanout-failure"
+    return None
+
+
+def gen_multi(rng, families, tier, max_exec, cfg, types=("STANDARD", "STANDARD", "EXPRESS"), accept=classify,
+              stagger=(0.0, 0.0, 0.5, 1.0, 2.0), tries=20):
+    """Scenario with 1..max_exec independent executions (own machine, own worker functions each)."""
+    n = rng.randint(1, max_exec)
+    machines, execs, script, functions = {}, [], {}, []
+    skipped = {}
+    models = {}
+    for k in range(n):
+        for _ in range(tries):
+            fam = rng.choice(families)
+            prog = rename_functions(gen_program(rng, fam, tier), "x%d" % k)
+            name = "m%d" % k
+            ex = {"machine": name, "input": prog["input"], "name": "e%d" % k, "at": rng.choice(stagger),
+                  "node": rng.randint(0, 3)}
+            one = {"machines": {name: {"definition": prog["definition"]}}, "executions": [ex],
+                   "script": prog["script"], "config": cfg}
+            mo = model_for(one)
+            why = accept(mo, definition=prog["definition"])
+            if why is None:
+                break
+            skipped[why] = skipped.get(why, 0) + 1
+        else:
+            continue
+        machines[name] = {"definition": prog["definition"], "type": rng.choice(types), "family": fam}
+        execs.append(ex)
+        script.update(prog["script"])
+        functions.extend(prog["functions"])
+        models[ex["name"]] = mo
+    scn = {"machines": machines, "executions": execs, "script": script, "functions": functions, "config": cfg}
+    return scn, models, skipped
+
+
+def nontrivial_hash(scn, res):
+    return common.sha([scn["machines"], scn["executions"], scn["script"], res.sim.order_hash.hexdigest()])
